@@ -11,6 +11,7 @@ import (
 
 	"github.com/ThreeDotsLabs/watermill"
 	"github.com/ThreeDotsLabs/watermill/internal"
+	"github.com/ThreeDotsLabs/watermill/internal/verifhook"
 	sync_internal "github.com/ThreeDotsLabs/watermill/pubsub/sync"
 )
 
@@ -449,6 +450,7 @@ func (r *Router) RunHandlers(ctx context.Context) error {
 
 		h.started = true
 		close(h.startedCh)
+		verifhook.Point("router.runhandlers.started", h.name)
 
 		go func() {
 			defer cancel()
@@ -486,6 +488,7 @@ func (r *Router) watchAllHandlersStopped(ctx context.Context) {
 			// we can start router without any handlers,
 			// in that situation router would be closed immediately (even if they are no routers)
 			// let's wait for
+			verifhook.Point("router.watch.before_select")
 			select {
 			case <-r.handlerAdded:
 				// it should be some handler to track
@@ -562,6 +565,7 @@ func (r *Router) Close() error {
 
 	close(r.closingInProgressCh)
 	defer close(r.closedCh)
+	verifhook.Point("router.close.signalled")
 
 	timedout := r.waitForHandlers()
 	if timedout {
@@ -579,11 +583,13 @@ func (r *Router) waitForHandlers() bool {
 
 		// handlers' loops need to stop first: until then they can still dispatch received messages
 		r.handlersWg.Wait()
+		verifhook.Point("router.close.loops_wait_done")
 
 		r.runningHandlersWgLock.Lock()
 		defer r.runningHandlersWgLock.Unlock()
 
 		r.runningHandlersWg.Wait()
+		verifhook.Point("router.close.running_wait_done")
 	}()
 	return sync_internal.WaitGroupTimeout(&waitGroup, r.config.CloseTimeout)
 }
@@ -641,6 +647,7 @@ func (h *handler) run(ctx context.Context, middlewares []middleware) {
 	go h.handleClose(ctx)
 
 	for msg := range h.messagesCh {
+		verifhook.Point("router.run.received", h.name, msg.UUID)
 		h.runningHandlersWgLock.Lock()
 		h.runningHandlersWg.Add(1)
 		h.runningHandlersWgLock.Unlock()
@@ -768,6 +775,7 @@ func (h *handler) addHandlerContext(messages ...*Message) {
 }
 
 func (h *handler) handleClose(ctx context.Context) {
+	verifhook.Point("router.handleclose.before_select", h.name)
 	select {
 	case <-h.routersCloseCh:
 		// for backward compatibility we are closing subscriber
@@ -805,6 +813,7 @@ func (h *handler) handleMessage(msg *Message, handler HandlerFunc) {
 	}()
 
 	h.logger.Trace("Received message", msgFields)
+	verifhook.Point("router.handle.start", h.name, msg.UUID)
 
 	producedMessages, err := handler(msg)
 	if err != nil {
@@ -816,12 +825,14 @@ func (h *handler) handleMessage(msg *Message, handler HandlerFunc) {
 	}
 
 	h.addHandlerContext(producedMessages...)
+	verifhook.Point("router.handle.before_publish", h.name, msg.UUID)
 
 	if err := h.publishProducedMessages(producedMessages, msgFields); err != nil {
 		h.logger.Error("Publishing produced messages failed", err, nil)
 		msg.Nack()
 		return
 	}
+	verifhook.Point("router.handle.before_settle", h.name, msg.UUID)
 
 	msg.Ack()
 	h.logger.Trace("Message acked", msgFields)
